@@ -270,7 +270,7 @@ def check_property(pid, tier, base_seed, out=sys.stdout, write_evidence=True, ex
                 out.write('KNOWN-FINDING: property=%s %s [%s; e.g. family=%s build=%s seed=%d]\n' % (pid, kn.get('title', kn['what'][:200]), kn['id'], fam, b, sd))
             reported.append({'oracle': oracle, 'build': b, 'known': kn['id'], 'runs': len(vs)})
             continue
-        mn = Minimiser(bdir, b, plan, oracle, budget_runs=(6 if oracle == 'hang' else spec.get('min_runs', 250)), budget_s=spec.get('min_s', 60), crash_func=r.get('crash_func'))
+        mn = Minimiser(bdir, b, plan, oracle, budget_runs=(6 if oracle == 'hang' else spec.get('min_runs', 450 if len(plan.get('progs', [])) > 1 else 250)), budget_s=spec.get('min_s', 90 if len(plan.get('progs', [])) > 1 else 60), crash_func=r.get('crash_func'))
         small = mn.run()
         rp = os.path.join(replay_dir, '%s-%s-%s-%d.json' % (pid, oracle, b, sd))
         json.dump({'property': pid, 'family': fam, 'build': b, 'seed': sd, 'plan': small}, open(rp, 'w'), indent=0)
